@@ -316,8 +316,11 @@ class ShareableThreadLock:
                 self._acquired_by[thread_id] -= 1
                 if not self._acquired_by[thread_id]:
                     del self._acquired_by[thread_id]  # NOTE: GC
-                    if not self._acquired_by:
-                        self._condition.notify_all()
+                    # NOTE: A thread waiting to upgrade to an exclusive lock
+                    # still holds its own shared lock, so we must wake up
+                    # waiters whenever a thread stops holding, not only when
+                    # nobody holds.
+                    self._condition.notify_all()
             finally:
                 self._condition.release()
 
